@@ -136,8 +136,15 @@ func selfFkScenario(c *core.Ctx, idx int, prop string) {
 		Fields: []schema.Field{{Name: "label", Kind: schema.KStr}, {Name: "parent", Kind: schema.KStr, FK: "nodes"},
 			{Name: "children", Kind: schema.KList, FK: "nodes", Derived: true}, {Name: "pins", Kind: schema.KList, FK: "pins", Derived: true}},
 		FKs: []schema.FKDef{{Field: "parent", Target: "nodes", Kind: kind, BackRef: "children"}}}
+	pinField := schema.Field{Name: "node", Kind: schema.KStr, FK: "nodes"}
+	if cascade && idx%6 == 5 {
+		// the fk field registered as a plain symbol (AddSymbol), which knows nothing about the store it points into;
+		// the fk index is told both sides anyway
+		pinField.FK = ""
+		c.Cover("self_fk_shape", "cascade over an fk field registered as a plain symbol")
+	}
 	pins := &schema.StoreDef{Type: "pins", BasePath: []string{"stores"},
-		Fields: []schema.Field{{Name: "node", Kind: schema.KStr, FK: "nodes"}},
+		Fields: []schema.Field{pinField},
 		FKs:    []schema.FKDef{{Field: "node", Target: "nodes", Kind: pinKind, BackRef: "pins"}}}
 	sc := schema.Build([]*schema.StoreDef{nodes, pins})
 	path := c.TempFile("c04s")
